@@ -53,6 +53,12 @@ def _quiet(fn):
         return fn()
 
 
+def _first_field(o):
+    """{name of the first declared field} (a set, as include= / exclude= take it)"""
+    names = list(type(o).model_fields) if B.PYDANTIC_AVAILABLE else list(type(o).__model_fields__)
+    return set(names[:1])
+
+
 def observe_instance(o, variants=False):
     out = {"ok": True, "type": type(o).__name__}
     try:
@@ -73,6 +79,10 @@ def observe_instance(o, variants=False):
             "json_plain": _try(lambda: json.loads(o.model_dump_json(exclude_none=True))),
             "mcp": _try(lambda: o.model_dump_mcp(by_alias=True, exclude_none=True)),
             "again": _try(lambda: o.model_dump(by_alias=True, exclude_none=True)),
+            "info_include_first": _try(lambda: o.model_dump(include=_first_field(o), by_alias=True)),
+            "info_exclude_first": _try(lambda: o.model_dump(exclude=_first_field(o), by_alias=True, exclude_none=True)),
+            "info_exclude_dict": _try(lambda: o.model_dump(exclude={k: True for k in _first_field(o)}, exclude_none=True)),
+            "json_indent": _try(lambda: json.loads(o.model_dump_json(by_alias=True, exclude_none=True, indent=2))),
             "v1_dict": _try(lambda: _quiet(lambda: o.dict(by_alias=True, exclude_none=True))),
             "v1_json": _try(lambda: _quiet(lambda: json.loads(o.json(by_alias=True, exclude_none=True)))),
         }
@@ -122,6 +132,18 @@ def op_parse(case):
             return {"type": type(sp).__name__, "dump": sp.model_dump(by_alias=True, exclude_none=True),
                     "back": back.model_dump(by_alias=True, exclude_none=True)}
         out.setdefault("variants", {})["specific"] = _try(conv)
+    # the wrapper class and the kind predicates of the legacy class
+    from chuk_mcp.protocol.messages.json_rpc_message import JSONRPCMessageWrapper
+
+    def wrapped():
+        w = JSONRPCMessageWrapper(o)
+        return {"fields": [w.jsonrpc, w.id, w.method, w.params, w.result, w.error],
+                "is": [w.is_request(), w.is_notification(), w.is_response(), w.is_error_response(), w.is_batch()],
+                "dump": w.model_dump(by_alias=True, exclude_none=True),
+                "json": json.loads(w.model_dump_json(exclude_none=True))}
+    out["variants"]["wrapper"] = _try(wrapped)
+    if hasattr(o, "is_request"):
+        out["variants"]["legacy_is"] = _try(lambda: [o.is_request(), o.is_notification(), o.is_response(), o.is_error_response()])
     # kind by member presence (the legacy unified class is returned for most inputs)
     has = lambda n: getattr(o, n, None) is not None  # noqa: E731
     out["kind"] = (
@@ -510,9 +532,19 @@ def flow_embedded_bytes(case):
             "blob_decodes": base64.b64decode(d["resource"].get("blob", "")) == raw}
 
 
+def flow_example_tool(case):
+    from chuk_mcp.protocol.types import tools as T
+
+    r = asyncio.run(T.example_structured_tool(copy.deepcopy(case["arguments"])))
+    emitted = T.tool_result_to_dict(r)
+    return {"emitted": canon(emitted), "valid": bool(T.validate_tool_result(r)), "roundtrip": _roundtrip(T.ToolResult, emitted),
+            "leaks": leaks(r, emitted)}
+
+
 FLOWS = {
     "content-kind": flow_content_kind, "tool-result": flow_tool_result, "registry": flow_registry,
     "elicit-client": flow_elicit_client, "elicit-route": flow_elicit_route, "embedded-bytes": flow_embedded_bytes,
+    "example-tool": flow_example_tool,
 }
 
 
@@ -564,7 +596,11 @@ def op_deep(case):
     """the fallback's `_deep_validate` on ANY value (conforming or not) against a type expression"""
     if B.PYDANTIC_AVAILABLE:
         return {"ok": None}
-    T = _typing_of(case["ty"])
+    if case.get("field"):
+        import typing
+        T = typing.get_type_hints(INDEX[case["field"][0]], include_extras=True)[case["field"][1]]
+    else:
+        T = _typing_of(case["ty"])
     try:
         r = B._deep_validate("x", copy.deepcopy(case["value"]), T)
     except B.ValidationError:
